@@ -87,6 +87,8 @@ structure Factoring (g g' : G) (A : String) (F : List FGroup) : Prop where
   old : ∀ e ∈ F, ∀ s ∈ e.sufs, (⟨A, e.key ++ s⟩ : SProd) ∈ g.prods
   new_prods : ∀ p ∈ g'.prods, p ∈ g.prods ∨ (∃ e ∈ F, p = ⟨A, e.key ++ [Sym.nonterm e.name]⟩) ∨
     (∃ e ∈ F, ∃ s ∈ e.sufs, p = ⟨e.name, s⟩)
+  present : ∀ e ∈ F, (⟨A, e.key ++ [Sym.nonterm e.name]⟩ : SProd) ∈ g'.prods ∧
+    ∀ s ∈ e.sufs, (⟨e.name, s⟩ : SProd) ∈ g'.prods
   kept : ∀ p ∈ g.prods, p ∈ g'.prods ∨ ∃ e ∈ F, ∃ s ∈ e.sufs, p = ⟨A, e.key ++ s⟩ ∧
     (⟨A, e.key ++ [Sym.nonterm e.name]⟩ : SProd) ∈ g'.prods ∧ (⟨e.name, s⟩ : SProd) ∈ g'.prods
 
@@ -146,9 +148,9 @@ theorem sound_aux (hF : Factoring g g' A F) (hw : WellFormed g) : ∀ (n : Nat) 
         | refl =>
           obtain ⟨t, ht⟩ := hterm.left (Sym.nonterm B) (List.mem_cons_self ..)
           cases ht
-        | head s dβ =>
+        | head st dβ =>
           rename_i k β
-          obtain ⟨p, hp, hpB, rfl⟩ := s.of_single
+          obtain ⟨p, hp, hpB, rfl⟩ := st.of_single
           rcases hF.new_prods p hp with hp' | ⟨e, he, rfl⟩ | ⟨e, he, s', _, rfl⟩
           · -- an old production
             have hβ : Derives g p.body γ₁ := ih p.body k (by omega) γ₁ (hF.body_clean hw hp') hterm.left dβ
@@ -163,9 +165,9 @@ theorem sound_aux (hF : Factoring g g' A F) (hw : WellFormed g) : ∀ (n : Nat) 
             | refl =>
               obtain ⟨t, ht⟩ := hδ.right (Sym.nonterm e.name) (List.mem_cons_self ..)
               cases ht
-            | head s₂ dβ₂ =>
+            | head st₂ dβ₂ =>
               rename_i b' β₂
-              obtain ⟨q, hq, hqh, rfl⟩ := s₂.of_single
+              obtain ⟨q, hq, hqh, rfl⟩ := st₂.of_single
               have hqs : ∃ s ∈ e.sufs, q.body = s := by
                 rcases hF.new_prods q hq with hq' | ⟨e', _, rfl⟩ | ⟨e', he', s, hs, rfl⟩
                 · exact absurd (hqh ▸ (hw.2 q hq').1) (hF.fresh e he)
@@ -173,14 +175,14 @@ theorem sound_aux (hF : Factoring g g' A F) (hw : WellFormed g) : ∀ (n : Nat) 
                 · have := hF.inj e' he' e he hqh
                   subst this
                   exact ⟨s, hs, rfl⟩
-              obtain ⟨s, hs, hqb⟩ := hqs
+              obtain ⟨sf, hs, hqb⟩ := hqs
               rw [hqb] at dβ₂
-              have hold := hF.old e he s hs
-              have hcl : Clean F (e.key ++ s) := hF.body_clean hw hold
+              have hold := hF.old e he sf hs
+              have hcl : Clean F (e.key ++ sf) := hF.body_clean hw hold
               have hk : Clean F e.key := fun e' he' hm' => hcl e' he' (List.mem_append_left _ hm')
-              have hs' : Clean F s := fun e' he' hm' => hcl e' he' (List.mem_append_right _ hm')
+              have hs' : Clean F sf := fun e' he' hm' => hcl e' he' (List.mem_append_right _ hm')
               have h₁ : Derives g e.key δ₁ := ih e.key a (by omega) δ₁ hk hδ.left da
-              have h₂ : Derives g s δ₂ := ih s b' (by omega) δ₂ hs' hδ.right dβ₂
+              have h₂ : Derives g sf δ₂ := ih sf b' (by omega) δ₂ hs' hδ.right dβ₂
               exact (Derives.of_prod hold).trans (h₁.append h₂)
           · -- a production of a fresh name: `B` is not one
             exact absurd hpB (hB e he)
@@ -223,6 +225,19 @@ theorem wellFormed (hF : Factoring g g' A F) (hw : WellFormed g) : WellFormed g'
     intro x hx
     have := (hw.2 _ (hF.old e he s hs)).2 x (List.mem_append_right _ hx)
     exact hsym x this
+
+/-- `Verify()` still accepts the result: every declared non-terminal has a production -/
+theorem valid (hF : Factoring g g' A F) (hv : Valid g) : Valid g' := by
+  obtain ⟨hs, hp⟩ := hF.wellFormed hv.wellFormed
+  refine ⟨hs, ?_, hp⟩
+  intro n hn
+  rcases (hF.nts n).1 hn with hn | ⟨e, he, rfl⟩
+  · obtain ⟨p, hp, hh⟩ := hv.2.1 n hn
+    rcases hF.kept p hp with hp' | ⟨e, _, s, _, rfl, h₁, _⟩
+    · exact ⟨p, hp', hh⟩
+    · exact ⟨_, h₁, hh⟩
+  · obtain ⟨s, hs⟩ := List.exists_mem_of_ne_nil _ (hF.nonempty e he)
+    exact ⟨_, (hF.present e he).2 s hs, rfl⟩
 
 end Factoring
 
